@@ -211,8 +211,38 @@ def identifier_stream(ctx):
                           {"document": show(canon_doc(d))}, python=py_repro(d, "g"))
 
 
+def must_refuse_corpus(ctx):
+    """fixed documents that break one rule in a way random mutation reaches rarely; the verdict "must be refused" is the
+    Spec's (driver op `accepts`), not the harness's"""
+    three = [{"name": x, "epochs": [{"start_size": 100, "end_time": 0}]} for x in "ABC"]
+    docs = []
+    for order in ((0, 1, 2), (0, 2, 1), (2, 1, 0), (1, 0, 2)):
+        migs = [{"source": "C", "dest": "A", "rate": 0.5}, {"source": "B", "dest": "A", "rate": 0.75, "start_time": 200, "end_time": 100},
+                {"source": "B", "dest": "A", "rate": 0.125, "start_time": 100, "end_time": 0}]
+        docs.append(({"time_units": "generations", "demes": copy.deepcopy(three), "migrations": [migs[i] for i in order]}, "ingress above one in one window of a pair"))
+    # a deme whose start time lies outside the lifetime of an ancestor that is NOT listed first
+    old_young = [{"name": "old", "epochs": [{"start_size": 100, "end_time": 0}]},
+                 {"name": "young", "ancestors": ["old"], "start_time": 50, "epochs": [{"start_size": 100, "end_time": 0}]},
+                 {"name": "extinct", "ancestors": ["old"], "start_time": 90, "epochs": [{"start_size": 100, "end_time": 70}]}]
+    for anc, st in ((["old", "young"], 60), (["old", "extinct"], 60), (["old", "young", "extinct"], 80), (["old", "extinct", "young"], 40)):
+        docs.append(({"time_units": "generations", "demes": copy.deepcopy(old_young) + [
+            {"name": "child", "ancestors": anc, "proportions": [0.5] + [0.5 / (len(anc) - 1)] * (len(anc) - 1), "start_time": st,
+             "epochs": [{"start_size": 10, "end_time": 0}]}]}, "start time outside the lifetime of a later-listed ancestor"))
+    acc = ctx.driver.batch([{"op": "accepts", "doc": enc(d)} for d, _ in docs])
+    reps = model_resolve(ctx, [d for d, _ in docs])
+    for (d, why), a, rep in zip(docs, acc, reps):
+        code = impl.resolve(d)
+        ctx.count(show(canon_doc(d)), True, tags=["op:must_refuse", "accepted" if code[0] == "ok" else "rejected:" + code[1]])
+        compare_with_model(ctx, d, code, rep)
+        if a.get("wf") and a.get("ok") is False and code[0] == "ok":
+            ctx.violation(f"a document the specification rejects is resolved ({why})", {"document": show(canon_doc(d))}, python=py_repro(d, "g"))
+        if a.get("ok") is True:
+            raise RuntimeError(f"must-refuse corpus: the Spec accepts a document meant to be invalid ({why})")
+
+
 def run(ctx):
     n = 400 if ctx.tier == "quick" else 5000
+    must_refuse_corpus(ctx)
     defaults_sweep(ctx)
     identifier_stream(ctx)
     done = 0
